@@ -386,6 +386,9 @@ func (x *Exec) verifyFunction(fn *ssa.Function, fc *FuncContract, prop string, r
 		default:
 			bindResults(rextra, fn.Signature, c.mk("tuple", "Tuple", 0, "", r.results, nil, nil))
 		}
+		for _, lm := range fc.ExitLemmas {
+			fr.applyLemma(lm, r.st, r.guard, nil, rextra)
+		}
 		for i, e := range fc.Ensures {
 			t := fr.evalClauseAt(e, r.st, nil, rextra)
 			lab := e.Label
